@@ -2,13 +2,13 @@
 
 
 def run(ctx):
-    scen = ctx.gen("Entity", "Gen_Entity.tla", "Gen_equality.cfg", "equality", workers=4, timeout=1800)
+    scen = ctx.gen("Entity", "Gen_Entity.tla", "Gen_equality.cfg" if ctx.quick else "Gen_equality_thorough.cfg", "equality", workers=8, timeout=6000, heap="16g")
     ctx.sample(scen, 3)
     trace = ctx.execute("equality", scen)
     ctx.validate("Entity", "Trace_Entity.tla", "Trace_Entity.cfg", trace, "equality", parallel=12)
     ctx.cov["distinct_nontrivial"] = ctx.cov["traces_validated_against_impl"]
     ctx.finish("model_checking",
-               "abstract models over the feature space (incl. a nested structural twin) x every single mutation Entity!Mutations generates (every covered attribute of model, units, unit children, "
+               "abstract models over the feature space (quick: single features and selected pairs; thorough: all pairs of features; incl. a nested structural twin) x every single mutation Entity!Mutations generates (every covered attribute of model, units, unit children, "
                "components, variables, resets, import sources; children added/removed; child order reversed; equivalences added/removed)"
                + ("; equals() logged in both directions at every enclosing level" if "c10" == "c10" else "; every entity cloned, content/equality/parent checked, then one side mutated"),
                ["TLC decides from the logged equals()/content observations and the abstract model it generated"])
